@@ -17,7 +17,7 @@ OUT = Path(os.environ.get("VERIF_HARNESS_DIR", Path(__file__).resolve().parent.p
 TY = {
     "u8": (1, True, True, 8), "u16": (2, True, True, 16), "u32": (4, True, True, 32), "u64": (8, True, True, 64), "u128": (16, True, True, 128),
     "bool": (1, False, True, 0), "Vec<u8>": (3, False, False, 0), "Option<u16>": (3, False, True, 0), "[u8; 2]": (2, False, True, 0),
-    "Box<u8>": (1, False, True, 0), "PhantomData<u64>": (0, False, True, 0), "()": (0, False, True, 0), "Vec<bool>": (3, False, False, 0),
+    "Box<u8>": (1, False, True, 0), "OneV": (1, False, True, 0), "PhantomData<u64>": (0, False, True, 0), "()": (0, False, True, 0), "Vec<bool>": (3, False, False, 0),
 }
 COMPACT_LEN = {8: 2, 16: 4, 32: 5, 64: 9, 128: 17}
 
@@ -47,8 +47,9 @@ class F:  # field
 
 
 class V:  # enum variant
-    def __init__(self, name, kind="unit", fields=(), index=None, disc=None, skip=False):
+    def __init__(self, name, kind="unit", fields=(), index=None, disc=None, skip=False, skip_last=False):
         self.name, self.kind, self.fields, self.index, self.disc, self.skip = name, kind, list(fields), index, disc, skip
+        self.skip_last = skip_last  # write the skip attribute AFTER the index attribute (two separate #[codec] attributes)
 
 
 class S:  # struct
@@ -102,6 +103,9 @@ def family(seed):
         S("STransCompact", "tuple", [F("u32", "compact")], transparent=True),
         S("STransAs", "named", [F("u64", "encoded_as")], transparent=True),
         S("STransSkipZst", "named", [F("u16"), F("PhantomData<u64>", "skip")], transparent=True),
+        # a field that is zero-sized in memory but NOT on the wire, inside a transparent struct and a plain one
+        S("STransZstEnc", "named", [F("OneV"), F("u32")], transparent=True),
+        S("SZstEncMid", "tuple", [F("u8"), F("OneV"), F("u16", "compact")]),
         S("SBoxed", "named", [F("Box<u8>"), F("u8", "compact")], tier="t"),
         S("SCompact64Pair", "named", [F("u64", "compact"), F("u64", "encoded_as")], tier="t"),
         S("STup4", "tuple", [F("u8"), F("u8", "skip"), F("u16", "compact"), F("bool")], tier="t"),
@@ -115,6 +119,7 @@ def family(seed):
         E("ENamed", [V("A", "named", [F("u8", name="x"), F("u32", "compact", name="y")]), V("B", "named", [F("bool", name="z")])]),
         E("EAttrDiscMix", [V("A", disc=5), V("B", index=5 + 1, disc=5 + 2), V("C"), V("D", skip=True), V("F", disc=250)]),
         E("ESkipField", [V("A", "tuple", [F("u8", "skip"), F("u16")]), V("B", "named", [F("u32", "skip", name="p")])]),
+        E("ESkipAttrLast", [V("A"), V("Retired", index=7, skip=True, skip_last=True), V("B", "tuple", [F("u8")]), V("C", "tuple", [F("OneV")], index=9)]),
         E("EAllSkipped", [V("A", skip=True), V("B", "tuple", [F("u8")], skip=True)]),
         E("EVec", [V("A", "tuple", [F("Vec<u8>")]), V("B")], derives_mel=False),
         E("EIdx255", [V("A", index=255), V("B", index=254), V("C", disc=7)], tier="t"),
@@ -210,6 +215,12 @@ def emit(fam):
     w("use core::marker::PhantomData;")
     w("use parity_scale_codec::{Compact, Decode, DecodeWithMemTracking, Encode, MaxEncodedLen};")
     w("")
+    w("/// zero-sized in memory, one byte (its index, 5) on the wire")
+    w("#[derive(Encode, Decode, DecodeWithMemTracking, MaxEncodedLen, Clone, Copy)]")
+    w("pub enum OneV { #[codec(index = 5)] Only }")
+    w("impl Default for OneV { fn default() -> Self { OneV::Only } }")
+    w("impl Spec for OneV { fn spec_enc<const N: usize>(&self, o: &mut Buf<N>) { o.put(5) } fn spec_dec(c: &mut Cur) -> Option<Self> { if c.byte()? == 5 { Some(OneV::Only) } else { None } } fn same(&self, _o: &Self) -> bool { true } }")
+    w("impl Sym for OneV { fn sym(_c: usize) -> Self { OneV::Only } }")
     w("/// facts about a derived value that the generic harness bodies need")
     w("pub trait DerivedInfo { fn in_skipped_variant(&self) -> bool; fn skipped_fields_default(&self) -> bool; }")
     w("")
@@ -238,10 +249,12 @@ def emit(fam):
             body = []
             for v in t.variants:
                 a = ""
-                if v.skip:
+                if v.skip and not v.skip_last:
                     a += "#[codec(skip)] "
                 if v.index is not None:
                     a += "#[codec(index = %d)] " % v.index
+                if v.skip and v.skip_last:
+                    a += "#[codec(skip)] "
                 d = " = %d" % v.disc if v.disc is not None else ""
                 body.append("%s%s%s%s" % (a, v.name, fields_decl(v.kind, v.fields, public=False), d))
             if any(v.disc is not None for v in t.variants) and any(v.kind != "unit" for v in t.variants):
@@ -295,7 +308,7 @@ def emit(fam):
             w('#[cfg(feature = "c05")] #[kani::proof] #[kani::unwind(%d)] pub fn c05%s_%s_rt() { h_rt_derived::<%s, %d>(2) }' % (u, q, nm, t.name, n + 2))
         w('#[cfg(feature = "c05")] #[kani::proof] #[kani::unwind(%d)] pub fn c05%s_%s_dec() { h_dec_derived::<%s, %d>() }' % (u, q, nm, t.name, l))
         # the same three obligations under the wire-format / round-trip / decoder properties for a representative subset
-        if t.name in ("SMixed3", "STup1As", "SSkipThenOne", "STransCompact", "ETuple", "ENamed", "EAttrDiscMix", "ESkipFirst", "EIdxAttr", "EAllSkipped", "ESkipField", "EDisc"):
+        if t.name in ("SMixed3", "STup1As", "SSkipThenOne", "STransCompact", "STransZstEnc", "SZstEncMid", "ETuple", "ENamed", "EAttrDiscMix", "ESkipFirst", "ESkipAttrLast", "EIdxAttr", "EAllSkipped", "ESkipField", "EDisc"):
             w('#[cfg(feature = "c01")] #[kani::proof] #[kani::unwind(%d)] pub fn c01q_derived_%s_enc() { h_enc::<%s, %d>(2) }' % (u, nm, t.name, n))
             if not all_skipped:
                 w('#[cfg(feature = "c02")] #[kani::proof] #[kani::unwind(%d)] pub fn c02q_derived_%s_rt() { h_rt_derived::<%s, %d>(2) }' % (u, nm, t.name, n + 2))
